@@ -92,7 +92,7 @@ func (t *refTamper) OnSend(from, to *cluster.SNode, data []byte) [][]byte {
 	if from.Idx != t.byz || (typ != p2p.PeerMessageTypeBatchSnapshotAnnouncement && typ != p2p.PeerMessageTypeBatchFullChallenge) {
 		return nil
 	}
-	if !t.rng.Chance(t.rate) {
+	if !to.Alive || !t.rng.Chance(t.rate) {
 		return nil
 	}
 	msg, err := p2p.SimParse(data)
